@@ -5,15 +5,24 @@ HamiltonianPart::prepare is the restriction of the full Fock-space matrix, 1x1 b
 label, concatenation (theories/HPartProofs.v about the model theories/HPart.v).
 
 NOT proved: the numerical eigen-solver.  Its output is certified on every run and for every scenario:
-  residual max|H U - U E| <= 1e-10 |H| and max|U^+ U - 1| <= 1e-12, with H = EDSpec.poly_matrix of the dumped
+  residual max|H U - U E| <= 1e-12 |H| and max|U^+ U - 1| <= 1e-12, with H = EDSpec.poly_matrix of the dumped
   Hamiltonian polynomial on the FULL Fock space (oracle driver_ed), and again block by block with the model's own H_b.
+  |H| = largest absolute row sum of the block matrices (model's and dumped), with NO floor: a model written in units of 1e-9 is
+  held to 1e-21, so that an absolute cut applied to the matrix elements cannot hide below the tolerance (the solver reaches
+  4e-15 |H|).
 Trusted mathematics: small residuals imply eigenvalues close to the exact spectrum (Weyl / Bauer-Fike).
 
 Correspondence (model vs implementation, per scenario):
-  (a) HBLK of the model of HamiltonianPart::prepare == dumped HBLK, exactly (dyadic inputs);
+  (a) HBLK of the model of HamiltonianPart::prepare == dumped HBLK, exactly (dyadic inputs); on a difference the dumped block is
+      compared, exactly again, with the restriction of EDSpec.poly_matrix (oracle's HFULL) to the block's states: if the
+      implementation's block is not the Hamiltonian restricted to the block that is a violation, otherwise the model is wrong;
   (b) certificate as above; eigenvalues of every block ascending; 1x1 blocks: eigenvalue = the entry, vector = 1;
   (d) GROUND, ESTATE (eigenvalue by state label), EALL == model's computeGroundEnergy / getEigenValue / getEigenValues;
   (e) StateBlockIndex == the model's; the label 2^N is rejected (harness h_c03 under ASan).
+
+Scenarios: the O(1) dyadic families of tools/scen.py and the tiny-amplitude families of checks/hpartlib.py (hoppings, levels, fields,
+interactions of 2^-28 .. 2^-40 next to O(1) terms, and whole models in units of 2^-k, always with degenerate levels so that the
+tiny term matters at first order).
 """
 import json
 import re
@@ -21,7 +30,7 @@ import pv
 import edlib
 import hpartlib as hl
 
-RESID_TOL = 1e-10
+RESID_TOL = 1e-12         # relative to |H|; measured on the unmodified tree: <= 4e-15 |H|
 UNIT_TOL = 1e-12
 
 
@@ -52,7 +61,9 @@ def analyse(text, variant, mode):
     if rc or rc2 or any(t[0] == "DRIVER-ERROR" for t in mo + me):
         return r, [("driver", False, "rc=%d/%d %s %s" % (rc, rc2, err[-200:], [t for t in mo + me if t[0] == "DRIVER-ERROR"][:2]))], {}
     mh = {int(t[1]): t[2:] for t in mo if t[0] == "MHBLK"}
-    hscale = 1.0
+    # |H|: largest absolute row sum over the blocks, of the model's matrix and of the dumped one; no floor (a model in units of
+    # 2^-30 has |H| ~ 1e-9 and is certified to 1e-21)
+    hscale = 0.0
     hblk_bad = None
     for b in sorted(blocks):
         sz, h = hpre.get(b, (0, []))
@@ -63,9 +74,16 @@ def analyse(text, variant, mode):
             hblk_bad = hblk_bad or (b, "model outcome %s" % (m,))
             continue
         mv = hl.cplx_list(m[1:])
-        if int(m[0]) != sz or len(mv) != len(h) or any(not feq(x, y) for x, y in zip(mv, h)):
+        msz = int(m[0])
+        for i in range(msz):
+            hscale = max(hscale, sum(abs(x) for x in mv[i * msz:(i + 1) * msz]))
+        if msz != sz or len(mv) != len(h) or any(not feq(x, y) for x, y in zip(mv, h)):
             k = next((k for k in range(min(len(mv), len(h))) if not feq(mv[k], h[k])), -1)
             hblk_bad = hblk_bad or (b, "cell %d (row %d col %d): model %r impl %r" % (k, k // max(sz, 1), k % max(sz, 1), mv[k] if 0 <= k < len(mv) else None, h[k] if 0 <= k < len(h) else None))
+    # the model and the implementation disagree about a block: who is right is decided by the specification on the full space
+    hblk_impl = None
+    if hblk_bad:
+        hblk_impl = spec_restriction_mismatch(text, variant, blocks, hpre)
     # ---- certificate ----
     cert_bad = None
     if r.cert is None:
@@ -86,8 +104,10 @@ def analyse(text, variant, mode):
         fails.append(("cert", True, cert_bad + ("; HBLK differs from the model at block %d: %s" % hblk_bad if hblk_bad else "")))
     elif bcert_bad:
         fails.append(("block-cert", True, bcert_bad + ("; HBLK differs from the model at block %d: %s" % hblk_bad if hblk_bad else "")))
-    if hblk_bad and not cert_bad and not bcert_bad:
-        fails.append(("hblk", False, "block %d: %s" % hblk_bad))
+    if hblk_impl and hblk_impl != "unavailable":
+        fails.append(("hblk", True, "the matrix that HamiltonianPart::prepare hands to the solver is not the Hamiltonian restricted to the block: " + hblk_impl))
+    elif hblk_bad and not cert_bad and not bcert_bad:
+        fails.append(("hblk-model", False, "block %d: %s%s" % (hblk_bad + ("" if hblk_impl is None else " (HFULL of the oracle not available)",))))
     # ---- per block: ascending, 1x1 ----
     for b in sorted(blocks):
         e = eigs[b]
@@ -140,6 +160,39 @@ def analyse(text, variant, mode):
         fails.append(("sbi-model", False, "model StateBlockIndex %r" % msbi))
     melabel = [t for t in me if t[0] == "MELABEL"][0]
     return r, fails, {"hscale": hscale, "melabel": " ".join(melabel[2:]), "cert": r.cert}
+
+
+def spec_restriction_mismatch(text, variant, blocks, hpre):
+    """dumped HBLK (before diagonalisation) against <bra| H |ket> of EDSpec.poly_matrix (oracle's HFULL, built from the dumped
+    Hamiltonian polynomial on the full Fock space) for bra, ket in the block; exact (dyadic amplitudes).
+    None = equal everywhere | text naming the first differing cell | "unavailable"."""
+    r = edlib.run(text, ["hfull"], variant=variant)
+    hf = [t for t in r.oracle if t[0] == "HFULL"]
+    if not hf:
+        return "unavailable"
+    full = hl.cplx_list(hf[0][1:])
+    d = 1 << r.n()
+    if len(full) != d * d:
+        return "unavailable"
+    worst = None
+    count = 0
+    for b in sorted(blocks):
+        st = blocks[b]
+        sz, h = hpre.get(b, (0, []))
+        if sz != len(st) or len(h) != sz * sz:
+            return "block %d: dumped matrix is %dx%d (%d cells), the block has %d states" % (b, sz, sz, len(h), len(st))
+        for i, bra in enumerate(st):
+            for j, ket in enumerate(st):
+                want, got = full[bra * d + ket], h[i * sz + j]
+                if not feq(want, got):
+                    count += 1
+                    if worst is None or abs(want - got) > worst[0]:
+                        worst = (abs(want - got), b, i, j, bra, ket, want, got)
+    if worst is None:
+        return None
+    _, b, i, j, bra, ket, want, got = worst
+    return ("block %d cell (%d,%d): <%d| H |%d> = %r by the specification, the block holds %r (%d cells differ, this is the largest difference)"
+            % (b, i, j, bra, ket, want, got, count))
 
 
 def numpy_sanity(text, variant):
@@ -277,17 +330,31 @@ def run(chk):
                    "theorems are about exact arithmetic; rounding inside the solver is covered by the certificate only"]
     mode = probe_label_bound(chk)
     chk.extra["label_test_mode"] = mode
-    plan = [("real", False, 42 if quick else 160)]
+    # the fragments of translator/gen_ham.py this property rests on: one that left the recognised shape is replaced by its
+    # snapshot, i.e. the *_source theorems then speak about the OLD text and only the runs below tie the new one
+    tr = chk.extra.get("translator") or {}
+    for frag in ("Gen_HamGround", "Gen_HamEigenValue", "Gen_HamEigenValues", "Gen_HPartCompute", "Gen_HPartPrepare",
+                 "Gen_HamPrepareBcast", "Gen_HamComputeBcast"):
+        st = str(tr.get(frag, ""))
+        if st.startswith("untranslatable"):
+            chk.notes.append("translator: %s is %s -- Properties_C03_source.v is about the snapshot for this function; tied by the runs only" % (frag, st))
+            chk.extra.setdefault("fragments_not_translated", []).append({"fragment": frag, "why": st})
+    # (build, complex amplitudes, tiny-amplitude families, number of scenarios)
+    plan = [("real", False, False, 42 if quick else 160), ("real", False, True, 14 if quick else 56)]
     if not quick:
-        plan.append(("complex", True, 100))
-        plan.append(("complex", False, 30))
+        plan.append(("complex", True, False, 100))
+        plan.append(("complex", False, False, 30))
+        plan.append(("complex", True, True, 28))
     else:
-        plan.append(("complex", True, 6))       # a few complex-Hermitian cases also in the quick tier (the variant is built once)
+        plan.append(("complex", True, False, 6))       # a few complex-Hermitian cases also in the quick tier (the variant is built once)
+        plan.append(("complex", True, True, 4))
     certs = []
+    rel_certs = []
     sanity = []
-    for variant, cplx, count in plan:
+    for variant, cplx, tiny, count in plan:
         edlib.binaries(variant)
-        for family, kind, text, nm in hl.gen_cases(chk.rng, count, variant, complex_amplitudes=cplx):
+        gen = hl.gen_tiny_cases if tiny else hl.gen_cases
+        for family, kind, text, nm in gen(chk.rng, count, variant, complex_amplitudes=cplx):
             r, fails, facts = analyse(text, variant, mode)
             if any(f[0] == "workflow" for f in fails):
                 report(chk, family, kind, variant, text, mode, fails)
@@ -298,6 +365,8 @@ def run(chk):
                              "cert": facts.get("cert"), "signature": sig} if len(chk.samples) < 6 and chk.evaluations % 7 == 0 else None)
             if facts.get("cert"):
                 certs.append(facts["cert"])
+                if facts.get("hscale"):
+                    rel_certs.append(facts["cert"][0] / facts["hscale"])
             if chk.evaluations % (16 if quick else 5) == 0:
                 dev = numpy_sanity(text, variant)
                 if dev is not None:
@@ -310,9 +379,12 @@ def run(chk):
     chk.extra["numpy_sanity_TESTING_ONLY"] = {"scenarios": len(sanity), "max_deviation_of_sorted_spectra": max(sanity) if sanity else None,
                                               "note": "numpy.linalg.eigvalsh of the full-space matrix vs reported eigenvalues; additional testing layer, never decides"}
     if certs:
-        chk.extra["certificate_max"] = {"residual": max(c[0] for c in certs), "unitarity": max(c[1] for c in certs), "scenarios": len(certs)}
+        chk.extra["certificate_max"] = {"residual": max(c[0] for c in certs), "unitarity": max(c[1] for c in certs), "scenarios": len(certs),
+                                        "residual_relative_to_|H|": max(rel_certs) if rel_certs else None, "tolerance_relative_to_|H|": RESID_TOL}
     distributed_slice(chk, quick)
-    chk.rule = ("scenario = model family (Hubbard atom, two-site incl. spin-flip, Anderson, free degenerate, atomic limit, Kanamori, exchange, pairing, spinless 3-orbital) "
+    chk.rule = ("scenario = model family (Hubbard atom, two-site incl. spin-flip, Anderson, free degenerate, atomic limit, Kanamori, exchange, pairing, spinless 3-orbital; "
+                "tiny-amplitude families: weak link between identical atoms, whole model in units of 2^-k, free degenerate chain, spin-flip hopping, field / level shift, "
+                "interaction, Hund coupling, each of magnitude 2^-28 .. 2^-40 next to O(1) terms or alone, degenerate levels) "
                 "x partition (default analysis, symmetries ignored, custom integrals of motion: N, S_z, N and S_z, per-site charges) x build (real; complex with complex hoppings); "
                 "distinct = distinct canonical scenario text; non-trivial = at least one block larger than 1x1; the signature names family, partition and number of accepted "
                 "symmetries, block shapes present, degenerate spectrum or not, build")
